@@ -63,6 +63,10 @@ type c20xExchange struct {
 	Target  string    `json:"target"`
 	Svc     string    `json:"svc"`
 	Hdr     []c20xHdr `json:"hdr"`
+	FwdHdr  string    `json:"fwdhdr"`    // none | xfp | fwd
+	RidCfg  string    `json:"ridcfg"`    // proxy.header.requestid as configured ("" = off)
+	RidCli  string    `json:"ridclient"` // the id the client sends itself ("" = none)
+	FabioID string    `json:"fabioid"`
 	CStatus int       `json:"cstatus"`
 	CBytes  int       `json:"cbytes"`
 	DelayMs int       `json:"delay_ms,omitempty"` // chosen by the harness
@@ -81,6 +85,7 @@ type c20xCase struct {
 }
 
 type c20xScript struct {
+	Hold    bool   `json:"hold,omitempty"` // do not answer: wait until the client is gone
 	Info    []int  `json:"info"`
 	Status  int    `json:"status"`
 	Framing string `json:"framing"`
@@ -89,6 +94,7 @@ type c20xScript struct {
 }
 
 type c20xSeen struct {
+	reqid  []string
 	server string
 	method string
 	uri    string
@@ -103,6 +109,12 @@ type c20xRig struct {
 	seen    sync.Map          // exchange id -> *c20xSeen
 	servers []*httptest.Server
 	release chan struct{}
+	arrived sync.Map // exchange id -> chan struct{}: closed when the upstream has the request
+}
+
+func (rig *c20xRig) arrival(id string) chan struct{} {
+	ch, _ := rig.arrived.LoadOrStore(id, make(chan struct{}))
+	return ch.(chan struct{})
 }
 
 func c20xBodyAllowed(method string, status int) bool {
@@ -116,6 +128,15 @@ func (rig *c20xRig) upstream(name string) http.Handler {
 		var sc c20xScript
 		json.Unmarshal([]byte(r.Header.Get("X-Verif-Script")), &sc)
 		io.Copy(io.Discard, r.Body)
+		if sc.Hold {
+			rig.seen.Store(id, &c20xSeen{server: name, method: r.Method, uri: r.RequestURI, host: r.Host, reqid: r.Header.Values("X-Request-Id")})
+			close(rig.arrival(id))
+			select { // never answers: ends when the proxy drops the request or the run ends
+			case <-r.Context().Done():
+			case <-rig.release:
+			}
+			return
+		}
 		if sc.DelayMs > 0 {
 			time.Sleep(time.Duration(sc.DelayMs) * time.Millisecond) // stimulus only; the bound uses the measured hold
 		}
@@ -133,7 +154,7 @@ func (rig *c20xRig) upstream(name string) http.Handler {
 		if sc.Framing == "length" && sc.Status != 204 && sc.Status != 304 {
 			w.Header().Set("Content-Length", strconv.Itoa(total))
 		}
-		rig.seen.Store(id, &c20xSeen{server: name, method: r.Method, uri: r.RequestURI, host: r.Host, hold: time.Since(t0)})
+		rig.seen.Store(id, &c20xSeen{server: name, method: r.Method, uri: r.RequestURI, host: r.Host, hold: time.Since(t0), reqid: r.Header.Values("X-Request-Id")})
 		w.WriteHeader(sc.Status)
 		if !allowed {
 			return
@@ -231,6 +252,38 @@ const c20xSep = " || "
 const c20xTimeFmt = "$response_time_ns $time_rfc3339_ns"
 
 func c20xNewFront(rig *c20xRig, tbl route.Table, formats []string, withLogger bool) (*c20xFront, error) {
+	return c20xNewFrontCfg(rig, tbl, formats, withLogger, config.Proxy{})
+}
+
+const c20xFabioID = "f47ac10b-58cc-0372-8567-0e02b2c3d479"
+
+// c20xFronts: one front per value of the proxy options the exchanges vary (proxy.header.requestid)
+type c20xFronts struct {
+	rig     *c20xRig
+	tbl     route.Table
+	formats []string
+	logger  bool
+	m       map[string]*c20xFront
+}
+
+func (fs *c20xFronts) get(x *c20xExchange) (*c20xFront, error) {
+	if f, ok := fs.m[x.RidCfg]; ok {
+		return f, nil
+	}
+	f, err := c20xNewFrontCfg(fs.rig, fs.tbl, fs.formats, fs.logger, config.Proxy{RequestID: x.RidCfg})
+	if err == nil {
+		fs.m[x.RidCfg] = f
+	}
+	return f, err
+}
+
+func (fs *c20xFronts) close() {
+	for _, f := range fs.m {
+		f.close()
+	}
+}
+
+func c20xNewFrontCfg(rig *c20xRig, tbl route.Table, formats []string, withLogger bool, cfg config.Proxy) (*c20xFront, error) {
 	f := &c20xFront{done: make(chan c20xDone, 16), parts: formats}
 	var l logger.Logger
 	if withLogger {
@@ -245,7 +298,8 @@ func c20xNewFront(rig *c20xRig, tbl route.Table, formats []string, withLogger bo
 	}
 	gc := route.NewGlobCache(16)
 	p := &HTTPProxy{
-		Config:    config.Proxy{},
+		Config:    cfg,
+		UUID:      func() string { return c20xFabioID },
 		Transport: &c20xRT{normal: mk(60 * time.Second), short: mk(300 * time.Millisecond)},
 		Time:      func() time.Time { return time.Now().UTC() },
 		Lookup: func(r *http.Request) *route.Target {
@@ -296,7 +350,7 @@ type c20xObs struct {
 
 // c20xPlay performs one exchange and waits for the handler to return (causal barrier: the
 // access log line, if any, has been written by then).
-func (f *c20xFront) play(x *c20xExchange) (o c20xObs, skipped bool) {
+func (f *c20xFront) play(x *c20xExchange, rig *c20xRig) (o c20xObs, skipped bool) {
 	srv := f.srv4
 	if strings.HasPrefix(x.Raddr, "[") {
 		if f.srv6 == nil {
@@ -323,7 +377,16 @@ func (f *c20xFront) play(x *c20xExchange) (o c20xObs, skipped bool) {
 			req.Header.Add(h.Name, v)
 		}
 	}
-	sc, _ := json.Marshal(c20xScript{Info: x.Info, Status: x.Status, Framing: x.Framing, Chunks: x.Chunks, DelayMs: x.DelayMs})
+	switch x.FwdHdr {
+	case "xfp":
+		req.Header.Set("X-Forwarded-Proto", "https")
+	case "fwd":
+		req.Header.Set("Forwarded", "for=9.9.9.9; proto=https")
+	}
+	if x.RidCli != "" {
+		req.Header.Set("X-Request-Id", x.RidCli)
+	}
+	sc, _ := json.Marshal(c20xScript{Hold: x.Kind == "aborted", Info: x.Info, Status: x.Status, Framing: x.Framing, Chunks: x.Chunks, DelayMs: x.DelayMs})
 	req.Header.Set("X-Verif-Id", x.ID)
 	req.Header.Set("X-Verif-Script", string(sc))
 	if x.Expect {
@@ -339,7 +402,19 @@ func (f *c20xFront) play(x *c20xExchange) (o c20xObs, skipped bool) {
 			return nil
 		},
 	}
-	req = req.WithContext(httptrace.WithClientTrace(req.Context(), tr))
+	cctx, cancel := context.WithCancel(httptrace.WithClientTrace(req.Context(), tr))
+	defer cancel()
+	req = req.WithContext(cctx)
+	if x.Kind == "aborted" {
+		// the client hangs up as soon as the upstream has the request (and never before)
+		go func() {
+			select {
+			case <-rig.arrival(x.ID):
+			case <-time.After(60 * time.Second):
+			}
+			cancel()
+		}()
+	}
 	f.out.mu.Lock()
 	f.out.b.Reset()
 	f.out.n = 0
